@@ -72,7 +72,11 @@ def main():
         hits = vlib.scan_forbidden()
         if hits:
             ctx.broken("forbidden-construct", hits)
-        ok, log, dt = vlib.coq_make(["Props/%s.vo" % prop] + list(getattr(mod, "EXTRA_TARGETS", [])))
+        # everything the generated case files import (the executable drivers) is rebuilt with the theorems
+        import re as _re
+        hdr_mods = sorted(set(_re.findall(r"\b((?:Base|Model|Gen|Proofs)\.\w+)", getattr(mod, "HEADER", ""))))
+        ok, log, dt = vlib.coq_make(["Props/%s.vo" % prop] + [m.replace(".", "/") + ".vo" for m in hdr_mods]
+                                    + list(getattr(mod, "EXTRA_TARGETS", [])))
         ctx.notes["make_s"] = round(dt, 1)
         if not ok:
             ctx.broken("proof-build", log[-4000:])
